@@ -94,7 +94,7 @@ def calls_for(project, text, filename, cursors):
         return None
     case = {'parses': bool(ok), 'e01': {'msg': err.msg if err else '', 'line': (err.lineno or 0) if err else 0, 'col': (err.offset or 0) if err else 0},
             'calls': []}
-    out, r = guarded(lambda: linter.lint(project, text, filename))
+    out, r = guarded(lambda: linter.lint(project, text, filename) if filename != '<none>' else linter.lint(project, text))
     e01 = [d for d in r if d[0] == 'E01'] if out == 'ok' and isinstance(r, list) else []
     same = bool(e01) and err is not None and (e01[0][1], e01[0][2], e01[0][3]) == (err.msg, err.lineno, err.offset)
     case['calls'].append({'op': 'lint', 'marked': True, 'outcome': out, 'wellformed': bool(out == 'ok' and well_lint(r)), 'ne01': len(e01), 'e01same': same,
@@ -105,7 +105,7 @@ def calls_for(project, text, filename, cursors):
         if mok is None:
             continue
         for op, fn, wf in (('assist', assistant.assist, well_assist), ('location', assistant.location, well_location)):
-            out, r = guarded(lambda: fn(project, text, tuple(pos), filename))
+            out, r = guarded(lambda: fn(project, text, tuple(pos), filename) if filename != '<none>' else fn(project, text, tuple(pos)))
             case['calls'].append({'op': op, 'marked': bool(mok), 'outcome': out, 'wellformed': bool(out == 'ok' and wf(r)), 'ne01': 0, 'e01same': False,
                                   'pos': list(pos), 'detail': r if out not in ('ok', 'SyntaxError') else ''})
     return case
@@ -173,6 +173,16 @@ SNIPPETS = [
     '\n\n',
     'x = (\n',
     'é = 1\né\n"é".upper\n',
+    # PEP 695 type parameters, bounds and defaults
+    'def f[T: int, *Ts, **P](x: T) -> T:\n    return x\nclass C[T: (int, str)]:\n    attr: T\ntype Alias[K] = dict[K, int]\nf\nC.attr\n',
+    # class bases that do not evaluate to a class
+    'if x:\n    B = int\nelse:\n    B = str\nclass A(B): pass\nA.real\nA().real\n',
+    'class A:\n    def __init__(self):\n        self.b = A\nclass B(A().b): pass\nB.b\nB().b\n',
+    'import os.path\nclass A(os): pass\nA.path\nA().path\nclass M: pass\nclass N(M()): pass\nN().x\nN.x\nclass L(len, 1, "s", None): pass\nL.x\nL().x\n',
+    # deep expression / statement nesting (the parser accepts it)
+    'x = ' + ' + '.join(['1'] * 400) + '\nx\n',
+    'if a:\n    pass\n' + ''.join('elif a:\n    pass\n' for _ in range(400)) + 'a\n',
+    'x = ' + '[' * 60 + '1' + ']' * 60 + '\ny = ' + 'f(' * 80 + '0' + ')' * 80 + '\nx\ny\n',
     # many consecutive regions in one scope (names are resolved region by region)
     'c = 0\n' + ''.join('if c:\n    v%d = %d\n' % (i, i) for i in range(40)) + 'v39\nc\n',
 ]
@@ -230,6 +240,9 @@ def main():
                 pts.append(cursor)          # (a later mutation may have moved the text under an earlier cursor)
             if cursors == -1:
                 pts = [(i + 1, c) for i, l in enumerate(lines) for c in range(len(l) + 1)]
+                if len(pts) > 400:
+                    # long texts: the first and last positions and a sample in between
+                    pts = pts[:40] + rng.sample(pts[40:-80], 60) + pts[-80:]
             else:
                 for _ in range(cursors):
                     ln = rng.randrange(len(lines))
